@@ -83,6 +83,12 @@ def enc(name, value):
 ARG_VALS = [0, None, "", 1]
 
 
+def push(sofar, v):
+    """`h()` written inside an argument expression: its value still is the value of a statement"""
+    sofar.append(v)
+    return sofar
+
+
 def rt(x, sofar):
     """A run-time (non literal) argument: computed from a literal and from what the caller has
     obtained so far (the values of its earlier statements)."""
@@ -121,7 +127,9 @@ def arg_map(prog: Dict[str, Any]) -> Dict[Tuple[str, int], int]:
 
 
 def _stmt_lines(shape: Shape, f: str, i: int, s: Dict[str, str], args: Dict[Tuple[str, int], int],
-                names: Dict[str, str]) -> List[str]:
+                names: Dict[str, str], inline_prev: Optional[str] = None) -> List[str]:
+    """inline_prev: source of the previous statement's call, to be evaluated INSIDE the argument
+    expression of this (run-time argument) keep"""
     k = s["k"]
     if k == "load":
         return ["    sv.append(dds.load(%r))" % s["p"]]
@@ -146,15 +154,16 @@ def _stmt_lines(shape: Shape, f: str, i: int, s: Dict[str, str], args: Dict[Tupl
     if a == "kw":
         return ["    sv.append(dds.keep(%r, %s, x=%s))" % (s["p"], g, lit)]
     assert a == "runtime", s
+    svx = "sv" if inline_prev is None else "L.push(sv, %s)" % inline_prev
     if s["lay"] == "1":
-        return ["    sv.append(dds.keep(%r, %s, L.rt(%s, sv)))" % (s["p"], g, lit)]
+        return ["    sv.append(dds.keep(%r, %s, L.rt(%s, %s)))" % (s["p"], g, lit, svx)]
     if s["lay"] == "2":
         return ["    sv.append(dds.keep(%r, %s," % (s["p"], g),
-                "                       L.rt(%s, sv)))" % lit]
+                "                       L.rt(%s, %s)))" % (lit, svx)]
     # three-line layout: the literal sits on the third line of the call
     return ["    sv.append(dds.keep(%r, %s," % (s["p"], g),
             "                       L.rt(",
-            "                           %s, sv)))" % lit]
+            "                           %s, %s)))" % (lit, svx)]
 
 
 def _fun_src(shape: Shape, f: str, prog: Dict[str, Any], names: Dict[str, str],
@@ -183,8 +192,19 @@ def _fun_src(shape: Shape, f: str, prog: Dict[str, Any], names: Dict[str, str],
         return lines
     lines.append("    rv = [%s]" % ", ".join("L.enc(%r, %s)" % (v, pyname(shape, v)) for v in shape.reads[f]))
     lines.append("    sv = []")
-    for (i, s) in enumerate(shape.stmts[f]):
+    sts = shape.stmts[f]
+    i = 0
+    while i < len(sts):
+        s = sts[i]
+        if (shape.real.get("inline_call_args") and s["k"] == "call" and i + 1 < len(sts)
+                and sts[i + 1]["k"] == "keep" and sts[i + 1]["a"] == "runtime"):
+            # realisation: the plain call is written inside the argument expression of the next keep
+            call_src = _stmt_lines(shape, f, i, s, args, names)[0].strip()[len("sv.append("):-1]
+            lines += _stmt_lines(shape, f, i + 1, sts[i + 1], args, names, inline_prev=call_src)
+            i += 2
+            continue
         lines += _stmt_lines(shape, f, i, s, args, names)
+        i += 1
     lines.append("    return [%r, b, %s, rv, sv]" % (f, "L.encx(x)" if par != "none" else "99"))
     return lines[:start] + [ind + l for l in lines[start:]]
 
